@@ -828,3 +828,43 @@ def rule_A10(ctx):
     if n < 10:
         raise AnalysisError(f'only {n} mutated temporaries found (floor 10)')
     return r
+
+
+def rule_A11(ctx):
+    """Non-in-place public operations of the mutable classes never return the receiver (or an operand) itself."""
+    m = ctx.m
+    E = get_effects(ctx)
+    r = RuleResult('A11', 'operators, slicing and copies of mutable classes return new objects, never self or an operand')
+    n = 0
+    for c in sorted(MUTABLE):
+        for name, f in public_roots(ctx, c):
+            if f.is_classmethod() or f.is_staticmethod() or name in ('__new__', '__init__'):
+                continue
+            if name.startswith('__i') and name.endswith('__') and name not in ('__iter__', '__invert__', '__index__', '__int__'):
+                continue      # in-place operators return self by protocol
+            node = ctx.node(f, c)
+            fa = ctx.fa(node)
+            loc = E.locals(node)
+            selfname = f.params()[0] if f.params() else 'self'
+            for (ret, tags) in fa.returns:
+                if not (tags & set(FAMILY)) or ret.value is None:
+                    continue
+                n += 1
+                vals = [ret.value.body, ret.value.orelse] if isinstance(ret.value, ast.IfExp) else [ret.value]
+                for v in vals:
+                    bad = None
+                    if isinstance(v, ast.Name):
+                        if E.resolve_alias(node, v.id, selfname) == selfname:
+                            bad = 'the receiver itself'
+                        else:
+                            binds = loc.get(v.id, set())
+                            if binds and all(b[0] in ('param', 'view') for b in binds):
+                                bad = 'an operand (possibly the caller\'s own object)'
+                    if bad:
+                        r.fail(f.key, f'{c}.{name}: {norm(ret)}', f"{c}.{name} returns {bad}: the 'new' bitstring and the original are one mutable "
+                               'object, so mutating either changes the other', loc=f.loc(ret), extra={'ctx': c})
+                    else:
+                        r.ok(f'{c}.{name}:{norm(ret)}')
+    if n < 40:
+        raise AnalysisError(f'only {n} bitstring-valued returns examined (floor 40)')
+    return r
